@@ -408,7 +408,8 @@ impl Entry for TreeEntry {
 #[derive(Debug)]
 pub struct WalkTree {
     is_dir: bool,
-    input: walkdir::IntoIter,
+    // This is `None` if the depth behavior excludes every file (the walk is empty).
+    input: Option<walkdir::IntoIter>,
 }
 
 impl WalkTree {
@@ -427,18 +428,21 @@ impl WalkTree {
             LinkBehavior::ReadFile => false,
             LinkBehavior::ReadTarget => true,
         });
+        // The root of the walk is at the depth of the pivot. If this is beyond the maximum depth,
+        // then no files are within the bounds and there is nothing to walk.
         let builder = match depth {
-            DepthBehavior::Max(max) => builder.max_depth(max.max_at_pivot(pivot)),
-            DepthBehavior::Min(min) => builder.min_depth(min.min_at_pivot(pivot)),
-            DepthBehavior::MinMax(minmax) => {
-                let (min, max) = minmax.min_max_at_pivot(pivot);
-                builder.min_depth(min).max_depth(max)
-            },
-            DepthBehavior::Unbounded => builder,
+            DepthBehavior::Max(max) => max
+                .max_at_pivot(pivot)
+                .map(|max| builder.max_depth(max)),
+            DepthBehavior::Min(min) => Some(builder.min_depth(min.min_at_pivot(pivot))),
+            DepthBehavior::MinMax(minmax) => minmax
+                .min_max_at_pivot(pivot)
+                .map(|(min, max)| builder.min_depth(min).max_depth(max)),
+            DepthBehavior::Unbounded => Some(builder),
         };
         WalkTree {
             is_dir: false,
-            input: builder.into_iter(),
+            input: builder.map(|builder| builder.into_iter()),
         }
     }
 }
@@ -449,7 +453,9 @@ impl CancelWalk for WalkTree {
         // `cancel_walk_tree` must act upon the most recently yielded node regardless of its
         // topology (leaf vs. branch).
         if self.is_dir {
-            self.input.skip_current_dir();
+            if let Some(input) = self.input.as_mut() {
+                input.skip_current_dir();
+            }
         }
     }
 }
@@ -458,7 +464,7 @@ impl Iterator for WalkTree {
     type Item = Result<TreeEntry, WalkError>;
 
     fn next(&mut self) -> Option<Self::Item> {
-        let (is_dir, next) = match self.input.next() {
+        let (is_dir, next) = match self.input.as_mut().and_then(|input| input.next()) {
             Some(result) => match result {
                 Ok(entry) => (entry.file_type().is_dir(), Some(Ok(TreeEntry { entry }))),
                 Err(error) => (false, Some(Err(error.into()))),
